@@ -64,16 +64,18 @@ ASSUMPTIONS = ["graphs are simple undirected networkx Graphs without self-loops 
                "result would not be past the threshold (docstring: 'enumeration guard'); second alternative of C06_limits, witness "
                "C06_limits_guard_reachable; accepted by the oracle"]
 TESTED_NOT_PROVED = ["inputs are not modified (pure model; the adapter deep-compares host and pattern before/after every call)",
-                     "Strategy.from_string dispatch (strings 'all'/'comp'/'bt' and enum members)",
+                     "absence of state between calls (class/instance/module level): histories on one engine object and shared graph "
+                     "objects with in-place edits and caller-mutated results, every step compared with a fresh evaluation",
+                     "call spellings that do not reach the model (instance vs class, host/pattern by keyword, tuples for attribute lists)",
                      "the VF2 contract for inputs that were not run (premise of the theorems; discharged inside Coq for every case that "
                      "is run, see TRUSTED_BASE)"]
-LEVEL_TEXT = ("Machine-checked proof (Coq, all inputs, 16 theorems closed under the global context) over an executable, "
+LEVEL_TEXT = ("Machine-checked proof (Coq, all inputs, 19 theorems closed under the global context) over an executable, "
               "structure-following model of SubgraphSearchEngine.find_subgraph_mappings parameterised by the VF2 enumeration: "
               "ALL = exactly the label-preserving monomorphisms, duplicate-free (under the VF2 contract, which the verified enumerator "
               "provably meets); COMPONENT = exactly those sending different pattern components into different host components, duplicate-free, all of "
               "them when the host has fewer components, [] under the strict_cc_count guard; BACKTRACK = COMPONENT if non-empty else ALL; "
               "for every max_results/threshold the result is the prefix of length min of the unlimited list, emptied past the threshold, "
-              "or (comp/bt) the per-component enumeration guard fired; the pre-filter skips only when there is provably no match or its documented estimate guard fired.  Model tied to the code on every run by comparing result "
+              "or (comp/bt) the per-component enumeration guard fired; the pre-filter skips only when there is provably no match or its documented estimate guard fired; the call interface (strategy spellings, option defaults) is modelled and specified.  Model tied to the code on every run by comparing result "
               "multisets/lists, component partitions and pre-filter verdicts on exhaustive small scopes and random populations.")
 LEVEL_NOTE = ("Trusted: Coq kernel, the model, the harness encoder, the VF2 contract (monitored per case; networkx itself is not "
               "verified).  Not proved: input immutability of the Python code (monitored).")
